@@ -1,6 +1,7 @@
 import Jap.Core.Subcmd
 import Jap.Lemmas.Subcmd
 import Jap.Lemmas.SubcmdMore
+import Jap.Lemmas.SubcmdLayer
 import Jap.Gen.SubcmdShape
 /-!
 # C17 — exactly one subcommand is selected and only its settings survive
@@ -231,12 +232,12 @@ theorem C17_default_config_never_requires (single : Bool) (p : P) (tree cfg : Cf
 
 /-! ## non-vacuity and witnesses -/
 
-def leafP (d : Cfg) : P := .node ⟨d, []⟩ .none []
+def leafP (d : Cfg) : P := .node (.basic d []) .none []
 
 /-- a three-level tree: root (required `subcommand`) → fit (optional `cmd`, env lr=7) → sgd | adam; test -/
 def exTree : P :=
-  .node ⟨[("g", .int 1), ("subcommand", .none)], []⟩ (some ⟨"subcommand", true⟩)
-    [("fit", .node ⟨[("lr", .int 1), ("cmd", .none)], [("lr", .int 7)]⟩ (some ⟨"cmd", false⟩)
+  .node (.basic [("g", .int 1), ("subcommand", .none)] []) (some ⟨"subcommand", true⟩)
+    [("fit", .node (.basic [("lr", .int 1), ("cmd", .none)] [("lr", .int 7)]) (some ⟨"cmd", false⟩)
         [("sgd", leafP [("m", .int 0)]), ("adam", leafP [("b", .int 9)])]),
      ("test", leafP [("k", .int 5)])]
 
@@ -255,14 +256,14 @@ example : finalParse (layFuel 8 true) true .env exTree exCfg =
 
 /-- a required nested subcommand that cannot be determined: error at depth 2, whatever the depth -/
 example : missingReq (layFuel 8 true) .dflt
-    (.node ⟨[], []⟩ (some ⟨"subcommand", true⟩) [("a", .node ⟨[], []⟩ (some ⟨"cmd", true⟩) [("b", leafP [])])])
+    (.node (.basic [] []) (some ⟨"subcommand", true⟩) [("a", .node (.basic [] []) (some ⟨"cmd", true⟩) [("b", leafP [])])])
     [("subcommand", .str "a")] = true := by decide
 
 example : finalParse (layFuel 8 true) true .dflt
-    (.node ⟨[], []⟩ (some ⟨"subcommand", true⟩) [("a", .node ⟨[], []⟩ (some ⟨"cmd", true⟩) [("b", leafP [])])])
+    (.node (.basic [] []) (some ⟨"subcommand", true⟩) [("a", .node (.basic [] []) (some ⟨"cmd", true⟩) [("b", leafP [])])])
     [("subcommand", .str "a")] = .error (.nosub ["a", "cmd"]) := by rfl
 
-def twoP : P := .node ⟨[], []⟩ (some ⟨"cmd", false⟩) [("a", leafP [("x", .int 1)]), ("b", leafP [("y", .int 2)])]
+def twoP : P := .node (.basic [] []) (some ⟨"cmd", false⟩) [("a", leafP [("x", .int 1)]), ("b", leafP [("y", .int 2)])]
 
 /-- FULL statement fails: `cmd: ""` for an optional subcommand is accepted, the empty name stays as the choice and the
     sections of both subcommands survive (the code tests `if subcommand` where it means `is not None`) -/
@@ -285,7 +286,7 @@ theorem C17_sweep_completes :
       = .ok [("cmd", .str "a"), ("a", .sec [("x", .int 1)])] := by rfl
 
 def threeP : P :=
-  .node ⟨[("subcommand", .none)], []⟩ (some ⟨"subcommand", true⟩)
+  .node (.basic [("subcommand", .none)] []) (some ⟨"subcommand", true⟩)
     [("fit", leafP [("alpha", .int 1)]), ("test", leafP [("beta", .int 2)]), ("run", leafP [("gamma", .int 3)])]
 
 /-- open finding C17-early-selection-drops-settings: a config argument that names `test` and holds sections for `run`
@@ -313,6 +314,160 @@ theorem C17_early_selection_one_section_kept :
 /-- the hypothesis `quiet` of the partial theorem is satisfiable by a source with several sections -/
 example : quiet ⟨"subcommand", true⟩ ["fit", "test", "run"]
     [("run", .sec [("gamma", .int 30)]), ("fit", .sec [("alpha", .int 10)])] = true := by decide
+
+/-! ## the concrete layer: names of the environment variables, order of the sources, complete settings
+
+`layerC E fuel single ctx mode q` computes what `q.get_defaults()` / `q.parse_env()` return under the `parent_parsers`
+stack `ctx` from q's option defaults, its default config files, the files of the parsers on the stack (narrowed to their
+key) and the process environment `E` read BY VARIABLE NAME.  It is compared with the recorded return values of the real
+sub-parsers on every run (correspondence kind "layer"). -/
+
+/-- the variable the code reads for `dest` of the parser reached through the subcommands s1 … sn is
+    PREFIX_S1__…__SN__DEST (`-` → `_` in prefix and names, `.` → `__`, upper case) … -/
+theorem C17_env_names (root : List Nat) (path : List (List Nat)) (dest : List Nat) :
+    envVarAt root path dest = envName root path dest :=
+  envVarAt_eq root path dest
+
+/-- … and `_load_env_vars` holds, at an option of the parser, exactly the value of THAT variable (no config variable) -/
+theorem C17_env_names_read (E : Env) (penv : P → Cfg) (q : P) (k : String) (hk : ownKey q k) (hko : k ∈ q.info.options)
+    (hcfg : ∀ ck, q.info.cfgKey = some ck →
+      lookupE (getEnvVar (prefixAt E.root (q.info.path.map codes)) (codes ck)) E.cfgs = .none) :
+    lookup k (loadEnvC E penv q) = lookupE (envName E.root (q.info.path.map codes) (codes k)) E.vals := by
+  rw [(loadEnvC_own E penv q k hk hko hcfg).1, C17_env_names]
+
+/-- the name determines the parser and the option: two variables coincide only if the normalised subcommand paths and
+    dests coincide, provided no normalised subcommand name contains `__` or ends with `_` and no normalised dest
+    contains `__` (the no-dunder hypothesis; e.g. subcommand `a` with option `b__c` and subcommand path `a`,`b` with
+    option `c` both read APP_A__B__C) -/
+theorem C17_env_names_injective (root : List Nat) (path path' : List (List Nat)) (d d' : List Nat)
+    (hp : ∀ n ∈ path, word (normN n) = true) (hp' : ∀ n ∈ path', word (normN n) = true)
+    (hd : lastWord (normD d) = true) (hd' : lastWord (normD d') = true)
+    (h : envName root path d = envName root path' d') :
+    path.map normN = path'.map normN ∧ normD d = normD d' :=
+  envName_inj root path path' d d' hp hp' hd hd' h
+
+/-- the hypothesis is needed: the collision of the comment above -/
+theorem C17_env_names_dunder_collision :
+    envName (codes "app") [codes "a"] (codes "b__c") = envName (codes "app") [codes "a", codes "b"] (codes "c") := by decide
+
+/-- ORDER OF THE SOURCES WITHIN ONE LEVEL, as the code has it (`parse_env` of a sub-parser, at one of its options):
+    its environment variable, else its own default config files (the LAST listed that has the option), else the files of the
+    parsers on the `parent_parsers` stack narrowed to their key (a parent's section for this sub-parser; later stack
+    entries over earlier ones), else the option's default -/
+theorem C17_layer_order (E : Env) (fuel : Nat) (single : Bool) (ctx : Ctx) (q : P) (k : String)
+    (hk : ownKey q k) (hko : k ∈ q.info.options) (hm : k ≠ "__default_config__")
+    (hcfg : ∀ ck, q.info.cfgKey = some ck →
+      lookupE (getEnvVar (prefixAt E.root (q.info.path.map codes)) (codes ck)) E.cfgs = .none)
+    (hleaf : ∀ v, lookupE (envVarAt E.root (q.info.path.map codes) (codes k)) E.vals = some v → v.isSec = false)
+    (hf : ∀ t ∈ filesOf ctx q.info.dcfs, (keysOf t).Nodup ∧ leafAt k t = true) :
+    lookup k (layerC E (fuel + 1) single ctx .env q) =
+      match lookupE (envName E.root (q.info.path.map codes) (codes k)) E.vals with
+      | some v => some v
+      | .none => pickLast k q.info.dcfs (pickLast k (filesOf ctx []) (lookup k q.info.opts)) := by
+  rw [layerC_env_own E fuel single ctx q k hk hko hm hcfg hleaf hf, C17_env_names]
+  have : filesOf ctx q.info.dcfs = filesOf ctx [] ++ q.info.dcfs := by simp [filesOf]
+  rw [this, pickLast_append]
+  cases lookupE (envName E.root (q.info.path.map codes) (codes k)) E.vals <;> rfl
+
+/-- the same without environment parsing (`get_defaults`) -/
+theorem C17_layer_order_defaults (E : Env) (fuel : Nat) (single : Bool) (ctx : Ctx) (q : P) (k : String)
+    (hk : ownKey q k) (hm : k ≠ "__default_config__")
+    (hf : ∀ t ∈ filesOf ctx q.info.dcfs, (keysOf t).Nodup ∧ leafAt k t = true) :
+    lookup k (layerC E fuel single ctx .dflt q) =
+      pickLast k q.info.dcfs (pickLast k (filesOf ctx []) (lookup k q.info.opts)) := by
+  have e : layerC E fuel single ctx .dflt q = getDefaultsC single ctx q := by cases fuel <;> rfl
+  rw [e, getDefaultsC_own single ctx q k hk hm hf]
+  have : filesOf ctx q.info.dcfs = filesOf ctx [] ++ q.info.dcfs := by simp [filesOf]
+  rw [this, pickLast_append]
+
+/-- C17_complete_settings with the concrete layer: for an option `k` of the selected sub-parser `q`,
+    result[n][k] = the given value, else the value of the variable PREFIX_…__N__K, else q's own default config files (last
+    listed first), else the parent's default-config section for `n`, else the option default -/
+theorem C17_complete_settings_concrete (E : Env) (fuel : Nat) (single : Bool) (i : Info) (h : SubHdr)
+    (choices : List (String × P)) (cfg r : Cfg) (n : String) (q : P) (k : String)
+    (hwf : wf (.node i (some h) choices) = true)
+    (hcl : clean (layC E (fuel + 1) single (.node i (some h) choices)) .env (.node i (some h) choices) cfg = true)
+    (hok : finalParse (layC E (fuel + 1) single (.node i (some h) choices)) single .env (.node i (some h) choices) cfg = .ok r)
+    (hsel : lookup h.dest r = some (.str n)) (hq : findP n choices = some q)
+    (hk : ownKey q k) (hko : k ∈ q.info.options) (hm : k ≠ "__default_config__")
+    (hg : (keysOf (secOf (lookup n cfg))).Nodup ∧ leafAt k (secOf (lookup n cfg)) = true)
+    (hcfg : ∀ ck, q.info.cfgKey = some ck →
+      lookupE (getEnvVar (prefixAt E.root (q.info.path.map codes)) (codes ck)) E.cfgs = .none)
+    (hleaf : ∀ v, lookupE (envVarAt E.root (q.info.path.map codes) (codes k)) E.vals = some v → v.isSec = false)
+    (hf : ∀ t ∈ filesOf [(relKey (.node i (some h) choices) q, q.info.pdcfs)] q.info.dcfs, (keysOf t).Nodup ∧ leafAt k t = true) :
+    lookup k (secOf (lookup n r)) =
+      match lookup k (secOf (lookup n cfg)) with
+      | some v => some v
+      | .none =>
+        match lookupE (envName E.root (q.info.path.map codes) (codes k)) E.vals with
+        | some v => some v
+        | .none => pickLast k q.info.dcfs
+            (pickLast k (q.info.pdcfs.map (narrow (relKey (.node i (some h) choices) q))) (lookup k q.info.opts)) := by
+  have hc := C17_complete_settings (layC E (fuel + 1) single (.node i (some h) choices)) single .env _ cfg r hwf
+    (by intro e; cases e) hcl hok
+  rw [complete] at hc
+  have hc2 := hc.2
+  simp only [hsel] at hc2
+  rw [completeIn_eq, hq] at hc2
+  rw [complete_own _ _ q _ _ k hc2 hk, lookup_merge_leaf k _ _ hg.1 hg.2]
+  have hl := C17_layer_order E fuel single [(relKey (.node i (some h) choices) q, q.info.pdcfs)] q k hk hko hm hcfg hleaf hf
+  have hfl : filesOf [(relKey (.node i (some h) choices) q, q.info.pdcfs)] [] =
+      q.info.pdcfs.map (narrow (relKey (.node i (some h) choices) q)) := by simp [filesOf]
+  rw [hfl] at hl
+  show (match lookup k (secOf (lookup n cfg)) with
+    | some v => some v
+    | .none => lookup k (layerC E (fuel + 1) single [(relKey (.node i (some h) choices) q, q.info.pdcfs)] .env q)) = _
+  rw [hl]
+
+/-! ### non-vacuity of the concrete statements -/
+
+def d0 : Cfg := [("fit", .sec [("beta", .int 50)])]
+def fitC : P := .node { (mkInfo ["fit"] [("alpha", .int 1), ("beta", .int 2), ("gamma", .int 3), ("delta", .int 4)]
+    ["alpha", "beta", "gamma", "delta"] [[("gamma", .int 60)], [("gamma", .int 61), ("delta", .int 70)]] [d0]) with } .none []
+def rootC : P := .node (mkInfo [] [("subcommand", .none)] [] [d0] []) (some ⟨"subcommand", true⟩) [("fit", fitC)]
+def envC : Env := ⟨codes "app", [(codes "APP_FIT__DELTA", .int 80)], []⟩
+
+/-- fit named by the config; alpha given, beta from the parent's default-config section, gamma from the LAST own default
+    config file, delta from the variable APP_FIT__DELTA (over the own file's 70) -/
+example : wf rootC = true ∧ clean (layC envC 3 true rootC) .env rootC [("subcommand", .str "fit"), ("fit", .sec [("alpha", .int 9)])] = true := by
+  decide
+
+example : finalParse (layC envC 3 true rootC) true .env rootC [("subcommand", .str "fit"), ("fit", .sec [("alpha", .int 9)])] =
+    .ok [("subcommand", .str "fit"),
+         ("fit", .sec [("alpha", .int 9), ("beta", .int 50), ("gamma", .int 61), ("delta", .int 80),
+                       ("__default_config__", .str "§list")])] := by rfl
+
+/-! ### where the documented order (defaults < default config < environment < given) is violated -/
+
+def d1 : Cfg := [("fit", .sec [("alpha", .int 5)])]
+def fitP : P := .node (mkInfo ["fit"] [("alpha", .int 1)] ["alpha"] [] [d1]) .none []
+def rootP : P := .node (mkInfo [] [("subcommand", .none)] [] [d1] []) (some ⟨"subcommand", true⟩) [("fit", fitP)]
+def envNamesFit : Env := ⟨codes "app", [(codes "APP_SUBCOMMAND", .str "fit")], []⟩
+
+/-- open finding C17-env-named-subcommand-resets-defaults: the root's default config file gives fit.alpha = 5
+    (`get_defaults`), the variable APP_SUBCOMMAND=fit only NAMES the subcommand, but the environment layer of the root holds
+    the sub-parser's plain default alpha = 1 (the complete `parse_env` of `fit` is copied), and environment goes over
+    defaults: `_parse_defaults_and_environ` ends with fit.alpha = 1 -/
+theorem C17_env_named_resets_counterexample :
+    lookup "alpha" (secOf (lookup "fit" (getDefaultsC true [] rootP))) = some (.int 5) ∧
+    lookup "alpha" (secOf (lookup "fit" (loadEnvC envNamesFit (layerC envNamesFit 3 true [] .env) rootP))) = some (.int 1) ∧
+    lookup "alpha" (secOf (lookup "fit"
+      (merge (loadEnvC envNamesFit (layerC envNamesFit 3 true [] .env) rootP) (getDefaultsC true [] rootP)))) = some (.int 1) := by
+  refine ⟨by rfl, by rfl, by rfl⟩
+
+def d2 : Cfg := [("fit", .sec [("gamma", .int 792)])]
+def evalP : P := .node (mkInfo ["fit", "eval"] [] [] [] []) .none []
+def fit2 : P := .node (mkInfo ["fit"] [("gamma", .int 85), ("cmd", .none)] ["gamma"] [] [d2]) (some ⟨"cmd", true⟩) [("eval", evalP)]
+def envNamesEval : Env := ⟨codes "app", [(codes "APP_FIT__CMD", .str "eval")], []⟩
+
+/-- open finding C17-env-default-config-leak: under the stack [(fit, root)] the `parse_env` of `fit` handles its own
+    subcommands with the stack [(fit, root), (eval, fit)], so the root's file narrowed to the section `fit` is also loaded
+    for the GRANDCHILD `eval`: gamma = 792, meant for `fit`, appears under fit.eval; `get_defaults` of `fit` under the same
+    stack (environment parsing off) does not do that -/
+theorem C17_default_config_leak_counterexample :
+    lookup "gamma" (secOf (lookup "eval" (layerC envNamesEval 3 true [("fit", [d2])] .env fit2))) = some (.int 792) ∧
+    lookup "eval" (layerC envNamesEval 3 true [("fit", [d2])] .dflt fit2) = .none := by
+  refine ⟨by rfl, by rfl⟩
 
 /-! ## ties: the regenerated shape of the code equals the statements the model transcribes
 
@@ -353,5 +508,17 @@ theorem tie_sources :
     copies the parent's value, `tie_argv_and_links`), so the single `mode` of the model is the mode of every parser -/
 theorem tie_default_env_uniform :
     Jap.Gen.SubcmdShape.defaultEnvPropagation = Shape.defaultEnvPropagation := rfl
+
+/-- the concrete layer: `get_env_var`, the env prefix of sub-parsers, `_get_default_config_files` (stack first, then the
+    parser's own), the `parent_parsers` stack and its key, the key selection and merge of a default config file,
+    environment over defaults, the three loops of `_load_env_vars` in their order -/
+theorem tie_layer_sources :
+    Jap.Gen.SubcmdShape.getEnvVarBody = Shape.getEnvVarBody ∧
+    Jap.Gen.SubcmdShape.envPrefixOfSubcommands = Shape.envPrefixOfSubcommands ∧
+    Jap.Gen.SubcmdShape.defaultConfigFilesLoops = Shape.defaultConfigFilesLoops ∧
+    Jap.Gen.SubcmdShape.parentParsersContext = Shape.parentParsersContext ∧
+    Jap.Gen.SubcmdShape.defaultConfigLoad = Shape.defaultConfigLoad ∧
+    Jap.Gen.SubcmdShape.envOverDefaults = Shape.envOverDefaults ∧
+    Jap.Gen.SubcmdShape.loadEnvVarsLoops = Shape.loadEnvVarsLoops := ⟨rfl, rfl, rfl, rfl, rfl, rfl, rfl⟩
 
 end Jap.Props.C17
